@@ -367,9 +367,12 @@ class Parallel:
                 worker_name = None
                 in_thread_results = None
 
+                # Workers flush their results before they exit, so once every worker has been reaped
+                # all remaining results are already in the queue and an empty poll means we are done.
+                pool_drained = not pool
                 queue_empty = False
                 try:
-                    worker_name, _, in_thread_results, exc = done_queue.get(True, 1)
+                    worker_name, _, in_thread_results, exc = done_queue.get(True, 0 if pool_drained else 1)
                     last_task_ts = time.monotonic()
                 except queue.Empty:
                     queue_empty = True
@@ -419,7 +422,7 @@ class Parallel:
                         for result in self._run_callbacks(in_thread_result)
                     ]
 
-                if not pool:
+                if pool_drained and queue_empty:
                     break
 
                 for name in retired_workers:
